@@ -48,6 +48,19 @@ class Locals:
                 for t in tgs:
                     if isinstance(t, ast.Name):
                         self.defs.setdefault(t.id, []).append(n.value)
+                    elif isinstance(t, (ast.Tuple, ast.List)) and not any(isinstance(e, ast.Starred) for e in t.elts):
+                        # `a, b = e`: a is e[0], b is e[1] (or the matching element when e is itself a tuple display)
+                        for i, e in enumerate(t.elts):
+                            if isinstance(e, ast.Name):
+                                if isinstance(n.value, (ast.Tuple, ast.List)) and len(n.value.elts) == len(t.elts) \
+                                        and not any(isinstance(x, ast.Starred) for x in n.value.elts):
+                                    self.defs.setdefault(e.id, []).append(n.value.elts[i])
+                                else:
+                                    self.defs.setdefault(e.id, []).append(ast.Subscript(value=n.value, slice=ast.Constant(value=i), ctx=ast.Load()))
+                            else:
+                                for x in ast.walk(e):
+                                    if isinstance(x, ast.Name) and isinstance(x.ctx, ast.Store):
+                                        self.opaque.add(x.id)
                     elif isinstance(t, (ast.Tuple, ast.List, ast.Starred)):
                         for x in ast.walk(t):
                             if isinstance(x, ast.Name) and isinstance(x.ctx, ast.Store):
@@ -273,16 +286,20 @@ class NdvHome:
 
     def which(self, mod, expr) -> str | None:
         """'FLOAT_NDV' / 'INTEGER_NDV' when expr (a name, possibly imported under another name, or `module.name`) is that constant."""
-        r = None
-        if isinstance(expr, ast.Name):
-            r = self.p.resolve_name(mod, expr.id)
-        elif isinstance(expr, ast.Attribute):
-            r = self.p.resolve_expr(mod, expr)
-        if not r or r[0] != "assign":
+        for m in (mod if isinstance(mod, (list, tuple)) else [mod]):
+            r = None
+            if isinstance(expr, ast.Name):
+                r = self.p.resolve_name(m, expr.id)
+            elif isinstance(expr, ast.Attribute):
+                r = self.p.resolve_expr(m, expr)
+            if not r:
+                continue  # not a name of this module: code expanded from a helper is resolved where the helper was written
+            if r[0] != "assign":
+                return None
+            for nm, h in self.home.items():
+                if r[1][1] is h[1]:
+                    return nm
             return None
-        for nm, h in self.home.items():
-            if r[1][1] is h[1]:
-                return nm
         return None
 
     def mentioned(self, mod, node) -> set:
